@@ -83,9 +83,11 @@ theorem pssm_err_iff (rows : CRows) (L : Int) (hL : 0 ≤ L) (alphabet : Nat) (l
     · have hall' : ((pssmAlphabet alphabet).all fun c => (lookup c (charStats rows)).isSome) = false := by
         simpa using hall
       simp only [hall', Bool.false_eq_true, if_false, true_iff]
-      rw [List.all_eq_true] at hall
-      push_neg at hall
-      obtain ⟨c, hc, hs⟩ := hall
+      have hex : ∃ c ∈ pssmAlphabet alphabet, (lookup c (charStats rows)).isSome = false := by
+        rw [List.all_eq_false] at hall'
+        obtain ⟨c, hc, hs⟩ := hall'
+        exact ⟨c, hc, by simpa using hs⟩
+      obtain ⟨c, hc, hs⟩ := hex
       refine ⟨c, hc, ?_⟩
       rw [stat_isSome] at hs
       have : ¬ 0 < Spec.occ Spec.upperCase (rows.flatMap Prod.snd) c := by simpa using hs
